@@ -21,19 +21,19 @@ DOCTYPE = """<!DOCTYPE score-partwise PUBLIC\n  "-//Recordare//DTD MusicXML 3.1 
 MEASURE_SEP_COMMENT = "======================================================="
 ARTICULATIONS = [
     "accent",
-    "breath-mark",
-    "caesura",
+    "strong-accent",
+    "staccato",
+    "tenuto",
     "detached-legato",
+    "staccatissimo",
+    "spiccato",
+    "scoop",
+    "plop",
     "doit",
     "falloff",
-    "plop",
-    "scoop",
-    "spiccato",
-    "staccatissimo",
-    "staccato",
+    "breath-mark",
+    "caesura",
     "stress",
-    "strong-accent",
-    "tenuto",
     "unstress",
 ]
 
@@ -151,8 +151,10 @@ def make_note_el(note, dur, voice, counter, n_of_staves):
 
     if note.articulations:
         articulations = []
-        for articulation in note.articulations:
-            if articulation in ARTICULATIONS:
+        # written in the order of the MusicXML definition, which is the order
+        # in which load_musicxml returns them (re-export is then a fixpoint)
+        for articulation in ARTICULATIONS:
+            if articulation in note.articulations:
                 articulations.append(etree.Element(articulation))
         if articulations:
             articulations_e = etree.Element("articulations")
